@@ -156,3 +156,22 @@ Definition os_status (z : Z) : Z := Z.modulo z 256.
 (* parseArgs refuses an -exitCode value that no process can deliver; before the repair every value was taken *)
 Definition parse_exit_code (z : Z) : option Z := if (0 <=? z)%Z && (z <=? 255)%Z then Some z else None.
 Definition parse_exit_code_prefix (z : Z) : option Z := Some z.
+
+(* ---- round 6: -v ----
+   With -v the same global logger also prints lines that start with a tab and "debug: " (selection notices before
+   the run, "checking <package>" between the files' diagnostics). The documented way to read the output is to drop
+   those lines. *)
+Definition debug_prefix : string := String (ascii_of_N 9) "debug: ".
+Definition is_debug_line (l : string) : bool := has_prefix debug_prefix l.
+Definition debug_line (msg : string) : string := debug_prefix ++ msg.
+Definition strip_debug (ls : list string) : list string := filter (fun l => negb (is_debug_line l)) ls.
+
+(* checkPackage with -v: one debug line per package, then the package's files *)
+Fixpoint run_packages_verbose (verbose : bool) (cfg : cli_cfg) (pkgs : list (string * list src_file)) (st : bool * list string)
+  : bool * list string :=
+  match pkgs with
+  | [] => st
+  | (name, fs) :: r =>
+      let st1 := if verbose then (fst st, (snd st ++ [debug_line ("checking " ++ name)])%list) else st in
+      run_packages_verbose verbose cfg r (run_files cfg fs st1)
+  end.
